@@ -639,29 +639,54 @@ func limits(kind string) (lo, hi *big.Int) {
 	return new(big.Int).Neg(h), new(big.Int).Sub(h, one)
 }
 
-func defaultFor(name string, r *vlib.Rng) string {
+// defaultsFor: TWO DIFFERENT defaults for one OrDefault form (a single random default equals the held
+// value / the zero value too often: `BoolOrDefault` returning the default for a held `false`, or an
+// OrDefault returning the zero value instead of the default, went unnoticed on about half of the seeds).
+func defaultsFor(name string, r *vlib.Rng) [2]string {
 	base := strings.TrimSuffix(name, "OrDefault")
+	two := func(prefix string, c []string, encode bool) [2]string {
+		var u []string // distinct candidates (for the unsigned kinds the lower limit is "0" again)
+		for _, x := range c {
+			dup := false
+			for _, y := range u {
+				dup = dup || x == y
+			}
+			if !dup {
+				u = append(u, x)
+			}
+		}
+		c = u
+		i := r.Intn(len(c))
+		j := (i + 1 + r.Intn(len(c)-1)) % len(c)
+		a, b := c[i], c[j]
+		if encode {
+			a, b = enc(a), enc(b)
+		}
+		return [2]string{prefix + a, prefix + b}
+	}
 	switch base {
 	case "Float32":
-		return "f:" + vlib.Pick(r, []string{"0", "3f800000", "7fc00000", "80000000", "7f7fffff"})
+		return two("f:", []string{"0", "3f800000", "7fc00000", "80000000", "7f7fffff"}, false)
 	case "Float64":
-		return "f:" + vlib.Pick(r, []string{"0", "3ff0000000000000", "7ff8000000000001", "8000000000000000"})
+		return two("f:", []string{"0", "3ff0000000000000", "7ff8000000000001", "8000000000000000"}, false)
 	case "String":
-		return "s:" + enc(vlib.Pick(r, []string{"", "def", "12", "a b", "默认"}))
+		return two("s:", []string{"", "def", "12", "a b", "默认"}, true)
 	case "Bytes":
-		return "b:" + enc(vlib.Pick(r, []string{"", "def", "\x00\xff"}))
+		return two("b:", []string{"", "def", "\x00\xff"}, true)
 	case "Bool":
-		return "t:" + vlib.Pick(r, []string{"true", "false"})
+		return two("t:", []string{"true", "false"}, false)
 	}
 	lo, hi := limits(strings.ToLower(base))
-	return "i:" + vlib.Pick(r, []string{lo.String(), hi.String(), "0", "1", "7"})
+	return two("i:", []string{lo.String(), hi.String(), "0", "1", "7"}, false)
 }
 
 // every accessor, every OrDefault form, a few JSONScan targets
 func (g *gen) allOps() {
 	for _, n := range strictNames {
 		g.out.Line("%s", n)
-		g.out.Line("%sOrDefault %s", n, defaultFor(n, g.r))
+		for _, d := range defaultsFor(n, g.r) {
+			g.out.Line("%sOrDefault %s", n, d)
+		}
 	}
 	for _, n := range asNames {
 		g.out.Line("%s", n)
